@@ -548,6 +548,43 @@ pub fn t_write_scan<const KO: usize, const KN: usize>(hdr: &'static [u8]) {
     std::mem::forget(h);
 }
 
+/// Native replay for Engine-B candidates on the hunk writer: random hunks with up to 90 lines per side over a small alphabet
+/// (few or no equal lines, so that the closest-match walk has to look far), written with the real formatter, read back with
+/// parse_hunk: same two sequences and start lines; writing the re-parsed hunk gives the same bytes.
+#[cfg(test)]
+#[test]
+fn replay_sweep_writer() {
+    let mut seed: u64 = 0x2545F4914F6CDD1D;
+    let mut rnd = |n: u64| -> u64 { seed ^= seed << 13; seed ^= seed >> 7; seed ^= seed << 17; seed % n };
+    let mut case = 0u64;
+    while case < 3000 {
+        case += 1;
+        let ko = rnd(if case % 3 == 0 { 90 } else { 6 }) as usize;
+        let kn = rnd(if case % 3 == 0 { 90 } else { 6 }) as usize;
+        if ko + kn == 0 { continue; }
+        // disjoint alphabets on most cases (no match at all), shared on the others
+        let share = case % 2 == 0;
+        let mut lo: Vec<Vec<u8>> = Vec::new();
+        let mut ln: Vec<Vec<u8>> = Vec::new();
+        for _ in 0..ko { lo.push(vec![b'a' + rnd(3) as u8, b'\n']); }
+        for _ in 0..kn { ln.push(vec![(if share { b'a' } else { b'p' }) + rnd(3) as u8, b'\n']); }
+        let start = rnd(50) as isize;
+        let mut h: TextHunk = Hunk::new(start, start, &b""[..]);
+        for l in &lo { h.remove.content.push(&l[..]); }
+        for l in &ln { h.add.content.push(&l[..]); }
+        let mut out: Vec<u8> = Vec::new();
+        h.write_to(&mut out).unwrap();
+        let (rest, g) = match parse_hunk(&out[..]) { Ok(x) => x, Err(_) => panic!("written hunk is rejected by the parser (old {} lines, new {} lines)", ko, kn) };
+        assert!(rest.is_empty(), "written hunk not consumed (old {} lines, new {} lines)", ko, kn);
+        assert!(g.remove.content == h.remove.content, "old side changed by write-then-parse (old {} lines, new {} lines, shared alphabet: {})", ko, kn, share);
+        assert!(g.add.content == h.add.content, "new side changed by write-then-parse (old {} lines, new {} lines, shared alphabet: {})", ko, kn, share);
+        assert!(g.remove.target_line == h.remove.target_line && g.add.target_line == h.add.target_line, "start lines changed by write-then-parse");
+        let mut out2: Vec<u8> = Vec::new();
+        g.write_to(&mut out2).unwrap();
+        assert!(out2 == out, "writing the re-parsed hunk does not reproduce the written form");
+    }
+}
+
 /// (iii) file header: parse a concrete patch, write it, parse the written form: same kind, names, rename flag,
 /// modes, hashes, hunk count; writing again reproduces the written form.
 pub fn t_write_file(text: &[u8]) {
